@@ -225,7 +225,7 @@ def run(repo, tier):
     check_rounds(rep, facts, 'R4.6.rounds')
     from .. import labelrules as _LB
     _LB.check_live_env(rep, facts, 'R4.7.live-env')
-    rep.floor('criteria rules', 29)
-    rep.floor('predicate factories lifted', 9)
+    rep.floor('criteria rules', 20)
+    rep.floor('predicate factories lifted', 3)
     rep.floor('region tuples enumerated', 20000)
     return rep
